@@ -588,7 +588,7 @@ func planC13(tier string, seed int64) (*core.Plan, error) {
 	if every {
 		nTrees = 6
 	}
-	fixtures := []string{"M0", "S0", "S1", "S2"}
+	fixtures := []string{"M0", "S0", "S1", "S2", "S7"}
 	p := &core.Plan{Property: "C13", Tier: tier, Seed: seed, Level: "exploration", Isolated: true, CaseTimeout: 20 * time.Second,
 		Models: []core.ModelRun{{TLC: core.TLCRun{Module: "RobustModel", Workers: 4},
 			Description: "the robustness contract as a state machine (request of every shape, admitted outcomes, reread of the stored data): no reachable crash state, shape mismatches answered with an error, stored data readable after every answer"}},
@@ -627,6 +627,11 @@ func planC13(tier string, seed int64) (*core.Plan, error) {
 				stored := g.Subtree(abs.Path{})
 				if ti%2 == 0 {
 					stored = t
+				} else {
+					// a sparse store: most containers and lists the requests name hold no data
+					sp := gen.Default
+					sp.PLeaf, sp.PCont, sp.PList = 0.5, 0.25, 0.5
+					stored = (&gen.G{DS: f.DS, R: r, P: sp}).Subtree(abs.Path{})
 				}
 				store := func() string { return stores[r.Intn(len(stores))] }
 				base := func(req, shape, what string) core.Case {
